@@ -126,7 +126,7 @@ fn confirmed_case(sender_kind: u8, with_remove: bool) {
 }
 
 #[kani::proof]
-#[kani::unwind(12)]
+#[kani::unwind(82)]
 fn c13_confirmed_transcript_hash_bounded_2() {
     for_each_bool(|with_remove| for_each_below(4, |k| confirmed_case(k as u8, with_remove)));
 }
@@ -134,7 +134,7 @@ fn c13_confirmed_transcript_hash_bounded_2() {
 // interim_transcript_hash = Hash(confirmed_transcript_hash || opaque confirmation_tag<V>);
 // confirmed hash of 0..=2 bytes, tag of 0..=3 bytes
 #[kani::proof]
-#[kani::unwind(12)]
+#[kani::unwind(82)]
 fn c13_interim_transcript_hash_bounded_3() {
     let c: [u8; 2] = kani::any();
     let t: [u8; 3] = kani::any();
@@ -162,7 +162,7 @@ fn c13_interim_transcript_hash_bounded_3() {
 }
 
 #[kani::proof]
-#[kani::unwind(12)]
+#[kani::unwind(82)]
 fn c13_transcript_hash_provider_error() {
     let p = GhostProvider::failing_at(0);
     let ct = ConfirmationTag::mls_decode(&mut &[1u8, 7][..]).ok().unwrap();
